@@ -228,6 +228,9 @@ def check(ctx):
         for nm in names[:5] or ["?"]:
             ctx.violation("code generated for a pest-valid grammar does not compile (%s)" % nm,
                           {"grammar": texts_by.get(nm, "?"), "rustc": msg[-3000:]}, found_input=bool(texts_by.get(nm)))
+    # every name the emitted rule types use is defined by the emitted generics module, and its aliases are the modelled ones
+    # (both AST paths; an undefined or ill-defined alias is a rustc error inside the derive expansion)
+    gencore.v1(ctx, 150 if ctx.tier == "quick" else 1500, which=("opt", "raw"))
     # "for every grammar pest accepts it emits code that compiles", under box_only_if_needed: the emitted struct types are
     # finite iff every reference cycle passes through a Box (evaluated on the flags the real generator emits)
     try:
